@@ -69,7 +69,7 @@ def default_opaque(F):
             return True
         if f['name'] in DEFAULT_OPAQUE_NAMES:
             return True
-        if fid in DEFAULT_OPAQUE_IDS:
+        if fid in DEFAULT_OPAQUE_IDS or (f['name'] == 'intern' and f.get('parent') == 'ipr::util::string_pool'):
             return True
         if f['name'] in ('size', 'get') and fid.endswith(' const') and \
                 (F.rec.get(f.get('parent') or '', {}).get('template') in SEQUENCE_STORES):
